@@ -354,3 +354,35 @@ def c18_r6(ctx):
         ctx.viol((h.id, "refresh-after-resolution-skipped"), "a rule that needs no rebuilding can finish without its targets' states being read again after the resolution: a target that was restored from the cache keeps the table entry of the file it replaced, and the shortcut later returns that file's hash for it", h.where(oks[0][0], oks[0][1]))
     else:
         ctx.ok()
+
+
+@rule("C18.R7", floor=1)
+def c18_r7(ctx):
+    """The number a modification time is stored and compared as is one-to-one: it is
+    `1_000_000 * as_secs() + subsec_micros()` (or the `as_micros()` / `as_nanos()` total) of the
+    time since the epoch - every accessor of the duration used once, the seconds scaled by the
+    number of sub-second units.  A term counted twice, a coarser unit or a wrong scale maps two
+    different times to one number, and the shortcut then takes a rewritten file for the old one."""
+    fs = [f for f in ctx.P.fns.values() if f.id.endswith("::get_timestamp") and not f.body.get("in_test")
+          and f.body.get("output", {}).get("s", "").startswith("std::result::Result<u64")]
+    ctx.need(len(fs) == 1, "the function that turns a SystemTime into a number")
+    f = fs[0]
+    ctx.saw(f)
+    acc = sorted(c.name for c in f.calls if c.path.startswith("std::time::Duration::") and c.name != "duration_since")
+    ctx.inst("timestamp encoding: %s" % "+".join(acc), f.where(0))
+    muls = [s["rv"] for b in f.blocks if not b["cleanup"] for s in b["stmts"]
+            if s["k"] == "assign" and s["rv"]["k"] == "binop" and s["rv"]["op"] in ("Mul", "MulWithOverflow")]
+    scales = sorted({x.get("bits") for m in muls for x in (m["a"], m["b"]) if x["k"] == "const"})
+    good = {("as_secs", "subsec_micros"): ["1000000"], ("as_secs", "subsec_nanos"): ["1000000000"],
+            ("as_micros",): [], ("as_nanos",): []}
+    if not acc:
+        raise AnalysisError("idiom not recognised: %s uses no accessor of Duration" % f.id)
+    known = {"as_secs", "subsec_micros", "subsec_millis", "subsec_nanos", "as_micros", "as_millis", "as_nanos"}
+    if not set(acc) <= known:
+        raise AnalysisError("idiom not recognised: %s reads the duration through %s" % (f.id, sorted(set(acc) - known)))
+    if tuple(acc) not in good:
+        ctx.viol((f.id, "timestamp-not-one-to-one"), "the stored modification time is computed from %s: a part of the time is counted twice or dropped, so two different modification times can get the same number (the shortcut then keeps the old hash of a rewritten file)" % " + ".join(acc), f.where(0))
+    elif scales != good[tuple(acc)]:
+        ctx.viol((f.id, "timestamp-scale"), "the seconds are scaled by %s, not by the number of sub-second units: different times collide" % (scales or "nothing"), f.where(0))
+    else:
+        ctx.ok()
